@@ -663,7 +663,7 @@ func baseConstruct(env *Zlisp, f *RegisteredType, nargs int) (Sexp, error) {
 		}
 		return mybool, nil
 	default:
-		return SexpNull, fmt.Errorf("unhandled case in baseConstruct, arg = %#v/type=%T", arg, arg)
+		return SexpNull, fmt.Errorf("unhandled case in baseConstruct, arg = %s/type=%T", arg.SexpString(nil), arg)
 	}
 	//return SexpNull, fmt.Errorf("unhandled no-arg case in baseConstruct, v has type=%T", v)
 }
